@@ -236,3 +236,112 @@ pub fn fe_class<C: Codec>(fe: &Fe<C::Packet, C::Err>) -> String {
 pub fn type_of_stream(s: &[u8]) -> &'static str {
     s.first().map_or("EMPTY", |b| crate::ast::type_name(b >> 4))
 }
+
+// ---------------------------------------------------------------------------------------------
+// Hostile peer: byte streams for C03 / C06 / C11 / C12
+
+/// `accept_bias` (0..=100): how strongly the generator favours streams a decoder will accept
+/// (valid packets in legal or lenient spellings) over damaged ones.
+pub fn hostile_case(rng: &mut Rng, tier: crate::scn::Tier, idx: u64, prop: &str, scn: &str, accept_bias: u64) -> Case {
+    use crate::refcodec::Style;
+    let thorough = tier == crate::scn::Tier::Thorough;
+    let mut sw = gen::swarm(rng, thorough);
+    let all = gen::all_types(sw.fam);
+    if idx % 8 == 0 {
+        sw.types = vec![all[(idx / 8) as usize % all.len()]];
+    }
+    let mut c = Case::new(prop, scn, sw.fam, Front::P);
+    let mode = if rng.below(100) < accept_bias { 0 } else { 1 + rng.below(3) };
+    match mode {
+        0 | 1 => {
+            // valid traffic in canonical or non-canonical spelling; mode 1 adds corruption
+            let n = if rng.chance(1, 6) { 2 } else { 1 };
+            for _ in 0..n {
+                let mut a = gen::gen_packet(rng, &sw);
+                maybe_retarget(rng, &sw, &mut a, 100);
+                c.packets.push(a);
+            }
+            c.style = Style {
+                spell: rng.below(3) as u8,
+                shuffle: if rng.chance(1, 2) { rng.next_u64() | 1 } else { 0 },
+                rl_width: if rng.chance(1, 4) { rng.urange(2, 4) as u8 } else { 0 },
+                plen_width: if rng.chance(1, 6) { rng.urange(2, 4) as u8 } else { 0 },
+                stray_will_retain: rng.chance(1, 8),
+            };
+            if mode == 1 {
+                let e = refcodec::ref_encode(&c.packets[0], sw.fam, &c.style);
+                let n = rng.urange(1, 4);
+                c.mutations = gen_mutations(rng, e.bytes.len(), &span_bounds(&e.spans), n);
+            }
+        }
+        2 => {
+            // plausible header + random body
+            let t = *rng.pick(&all);
+            let flags = if rng.chance(3, 4) { spec::fixed_flags(t, sw.fam.is_v5()).unwrap_or(rng.below(16) as u8) } else { rng.below(16) as u8 };
+            let n = if rng.chance(1, 8) { rng.urange(100, 400) } else { rng.urange(0, 24) };
+            let body = rng.bytes(n);
+            let declared = match rng.below(4) {
+                0 => n.saturating_sub(rng.urange(0, 3)),
+                1 => n + rng.urange(0, 3),
+                _ => n,
+            };
+            let mut s = vec![(t << 4) | flags];
+            s.extend_from_slice(&spec::varint(declared as u32));
+            s.extend_from_slice(&body);
+            c.stream = Bs(s);
+        }
+        _ => {
+            // maximal / huge declared lengths over short bodies
+            let t = *rng.pick(&all);
+            let flags = spec::fixed_flags(t, sw.fam.is_v5()).unwrap_or(0);
+            let mut s = vec![(t << 4) | flags];
+            let decl: &[u8] = match rng.below(5) {
+                0 => &[0xFF, 0xFF, 0xFF, 0x7F],
+                1 => &[0xFF, 0xFF, 0x7F],
+                2 => &[0x80, 0x80, 0x80, 0x01],
+                3 => &[0xFF, 0xFF, 0xFF, 0xFF, 0x7F],
+                _ => &[0xFF, 0x7F],
+            };
+            s.extend_from_slice(decl);
+            let n = rng.urange(0, 40);
+            // bodies that start like a real one, so inner length fields are reached
+            let mut body = rng.bytes(n);
+            if n >= 4 && rng.chance(1, 2) {
+                body[0] = 0xFF;
+                body[1] = 0xFF;
+            }
+            s.extend_from_slice(&body);
+            c.stream = Bs(s);
+        }
+    }
+    if rng.chance(1, 3) {
+        let n = rng.urange(1, 12);
+        c.suffix = Bs(rng.bytes(n));
+    }
+    let approx = 64;
+    let pp = *rng.pick(&[0u64, 0, 100, 300]);
+    let (script, tail) = gen_read_script(rng, approx, pp, &[]);
+    let cp = *rng.pick(&[0u64, 500]);
+    c.cancel = gen_cancel(rng, &script, cp);
+    c.read_script = script;
+    c.read_tail = tail;
+    c
+}
+
+pub fn hostile_stream(c: &Case) -> Vec<u8> {
+    let mut s = if c.packets.is_empty() {
+        c.stream.0.clone()
+    } else {
+        let mut v = Vec::new();
+        for p in &c.packets {
+            v.extend_from_slice(&refcodec::ref_encode(p, c.fam, &c.style).bytes);
+        }
+        v
+    };
+    apply_mutations(&mut s, &c.mutations);
+    s.extend_from_slice(&c.suffix.0);
+    if let Some(k) = c.cut {
+        s.truncate(k);
+    }
+    s
+}
